@@ -4,6 +4,6 @@ namespace QF.Gen
 
 /-- the function (*sql.Rows, <config>) (map[string]X, []string, error) of internal/io/sql (`ReadSQL`) -/
 def readSqlAst : SR :=
-  SR.declVars (SR.forNext (SR.ifColumnsNil (SR.getColumns SR.retErr (SR.rangeNames (SR.newColumn (SR.ifCoerceMap (SR.lookupCoerce (SR.ifOk (SR.setCoerce SR.done) SR.done)) (SR.appendColumn SR.done))) (SR.ifCoerceMap (SR.rangeCoerceKeys (SR.rangeColNames (SR.ifNameIsColName SR.continueOuter SR.retErr) SR.done) SR.done) (SR.setColNames SR.done)))) (SR.scanRow SR.retErr SR.done)) (SR.checkRowsErr SR.retErr (SR.newResult (SR.rangeColumns (SR.setResult SR.done) SR.retResult))))
+  SR.declVars (SR.forNext (SR.ifColumnsNil (SR.getColumns SR.retErr (SR.rangeNames (SR.newColumn (SR.ifCoerceMap (SR.lookupCoerce (SR.ifOk (SR.setCoerce SR.done) SR.done)) (SR.appendColumn SR.done))) (SR.setColNames (SR.ifCoerceMap (SR.rangeCoerceKeys (SR.rangeColNames (SR.ifNameIsColName SR.continueOuter SR.done) SR.retErr) SR.done) SR.done)))) (SR.scanRow SR.retErr SR.done)) (SR.checkRowsErr SR.retErr (SR.newResult (SR.rangeColumns (SR.setResult SR.done) SR.retResult))))
 
 end QF.Gen
